@@ -19,7 +19,8 @@ NCASES = len(SUITES) * 3
 BUDGET = {"quick": {"runs": NCASES * 2, "wall": 55}, "thorough": {"runs": NCASES * 60, "wall": 560}}
 RULE = ("Per run one (cipher, MAC, compression) suite and a recorded encrypted stream; enumerated "
         "faults: flip / delete / insert at every byte offset of the encrypted region, every "
-        "whole-packet drop, duplicate, adjacent swap and replay-at-end, 40 random double edits. "
+        "whole-packet drop, duplicate, adjacent swap and replay-at-end, 40 random double edits; one run in five uses a stream "
+        "of 530+ tiny packets with drops / replays / swaps / duplications 255, 256, 257 and 512 packets apart. "
         "evaluations counts runs; probes.cases counts individual tampered streams.")
 COMPONENTS = {"real": ["paramiko.packet.Packetizer (receiver and sender)", "Transport key activation", "cryptography"],
               "simulated": ["socket delivering the edited byte stream then EOF", "entropy"]}
@@ -75,9 +76,12 @@ def scenario(sim):
     msgs = []
     pkt.apply_out(ts, ks[0])
     msgs.append(b"\x15")
-    n = 3 + sim.choose(4)
+    # one run in five records a LONG stream of tiny packets instead, so that edits 256 and 512 packets apart are
+    # possible (per-packet state that wraps around: counters in nonces, sequence numbers)
+    long_stream = sim.seed % 5 == 2
+    n = 530 + sim.choose(40) if long_stream else 3 + sim.choose(4)
     for i in range(n):
-        size = (1, 2, 5, 16, 17, 33, 60, 120)[sim.choose(8)]
+        size = (1, 2, 5)[sim.choose(3)] if long_stream else (1, 2, 5, 16, 17, 33, 60, 120)[sim.choose(8)]
         body = pkt.random_message(sim, False)[:size]
         if body[0] == 21:
             body = b"\x5e" + body[1:]
@@ -135,14 +139,28 @@ def scenario(sim):
             raise Violation(("C02", "no-failure", kind), "%s at %s: receiver neither failed nor hit EOF" % (kind, where), desc)
 
     L = len(stream)
-    for off in range(start, L):
+    for off in range(start, min(L, start + 90) if long_stream else L):
         mask = (0x01, 0x80, 0xFF, 1 + sim.payload.randrange(255))[off & 3]
         case(stream[:off] + bytes([stream[off] ^ mask]) + stream[off + 1:], "flip", off)
         case(stream[:off] + stream[off + 1:], "delete", off)
         case(stream[:off] + bytes([sim.payload.randrange(256)]) + stream[off:], "insert", off)
     case(stream + bytes([sim.payload.randrange(256)]), "insert", L)
+    if long_stream:
+        # packet-level edits at distances of 256 and 512 packets
+        nseg = len(segs)
+        for i in (1, 2, 1 + sim.choose(10)):
+            for dist in (256, 512, 255, 257):
+                if i + dist >= nseg:
+                    continue
+                a, b = bounds[i]
+                c, d = bounds[i + dist]
+                case(stream[:a] + stream[c:], "drop-%d-packets" % dist, i)
+                case(stream[:d] + stream[a:b] + stream[d:], "replay-packet-%d-later" % dist, i)
+                case(stream[:a] + stream[c:d] + stream[b:c] + stream[a:b] + stream[d:], "swap-packets-%d-apart" % dist, i)
+                case(stream[:c] + stream[a:c] + stream[c:], "duplicate-%d-packets" % dist, i)
+        sim.probe("long_streams")
     # whole-packet edits (encrypted packets only)
-    for i in range(1, len(segs)):
+    for i in range(1, len(segs) if not long_stream else 4):
         a, b = bounds[i]
         case(stream[:a] + stream[b:], "drop-packet", i)
         case(stream[:b] + stream[a:b] + stream[b:], "duplicate-packet", i)
